@@ -13,8 +13,9 @@ for d in sorted(glob.glob(os.path.join(V, "seeded", "*"))):
     name = os.path.basename(d)
     clean = lambda t, n: re.sub(r"\s+", " ", str(t)).replace("|", "/")[:n]
     rows.append((name, clean(m.get("summary", ""), 170), clean(m.get("needs", ""), 130), m.get("caught")))
-r1 = [r for r in rows if "_r2_" not in r[0]]
+r1 = [r for r in rows if "_r2_" not in r[0] and "_r3_" not in r[0]]
 r2 = [r for r in rows if "_r2_" in r[0]]
+r3 = [r for r in rows if "_r3_" in r[0]]
 s += '''
 ## 13. Seeded changes: independent breakage and what catches it
 
@@ -23,12 +24,15 @@ For every property fresh sub-agents were given ONLY the property text and a scra
 passes, each with a demonstration program.  Round 1 asked for three changes of the agent's choice per property; round 2
 asked for one change of each of three subtle kinds: STATE/ALIASING (stale memo, shared mutable state, partially updated
 object — needs a sequence of calls), COOPERATING SITES (a helper/base class/table the property relies on indirectly),
-RARE INPUT (a narrow class of valid inputs, often about 2^-96 of the space).  Every change listed was confirmed by me in a
+RARE INPUT (a narrow class of valid inputs, often about 2^-96 of the space); round 3 asked for one change of each of:
+ERROR PATH (which inputs are refused and with which exception, or a failed call leaving something behind), ARGUMENT FORM
+(the same value handed over as another accepted type: string/int/tuple/object, list/tuple/generator/iterator, str
+subclass, IPRange used as a sequence), PROTOCOL (pickle, copy, hash/eq, iteration, slicing, bool/len).  Every change listed was confirmed by me in a
 scratch worktree (`tools/eval_seeded.sh`: suite unchanged at 268 passed / 2 pre-existing failures; demo exits 0 on the
 untouched tree and 1 with the change) and the property's quick check was run against the changed tree.  The patch, the
 demo and `meta.json` (what it needs to manifest, what was run, the tail of the check output) are kept under `seeded/<name>/`.
 
-**Result: all %d changes (%d round 1, %d round 2) are caught by the quick tier of the property's own check.**  That was
+**Result: all %d changes (%d round 1, %d round 2, %d round 3) are caught by the quick tier of the property's own check.**  That was
 not so at first; the misses drove these additions:
 
 * round 1, 3 of 57 missed: `C02_2` (memoised `netmask` not invalidated by the `prefixlen` setter) → setter histories read
@@ -45,10 +49,19 @@ not so at first; the misses drove these additions:
   in the C15 and shared value pools; coarse sibling blocks (`::/1`…`::/34`) in IPSet histories; intervals that just cross
   an aligned boundary (`lo` aligned to 2^k, `hi = lo + 2^k + δ`) for C05/C13 (caught a float-`log2` rewrite of
   `spanning_cidr` that is wrong for about 2^-47 of IPv6 pairs); `address/netmask` string forms in C13.
+* round 3, 6 of 54 missed at first, all of the ARGUMENT FORM / PROTOCOL kind: `C06_r3_2`, `C07_r3_2` (an iterable consumed
+  twice, so a generator or iterator argument lost elements) → the IPSet register machine hands every bulk argument over as
+  list, tuple, generator or one-shot iterator (chosen by a hash of the case), later also `cidr_merge` in C05; `C08_r3_3`
+  (EUI slice indexing) → the lifecycle observer of an EUI reads a family of slices and compares them with the items;
+  `C13_r3_3` (an `IPRange` given to `spanning_cidr`/`iter_iprange` as a sequence) → that form added to the C13 adapter;
+  `C01_r3_3` (an exact-type test `type(addr) is str` replacing `isinstance`) → a quarter of the C01 texts are passed as a
+  `str` subclass; `C17_r3_2` (integer bounds to `iprange_to_globs` mishandled) → the adapter demands the same globs from
+  string bounds, integer bounds and IPAddress bounds.  The same idea was then applied where no seed asked for it (CIDR-string
+  and IPAddress arguments of `cidr_partition`/`cidr_exclude` in C09).
 
 | seeded change | what was changed | needs, to manifest | caught |
 |---|---|---|---|
-''' % (len(rows), len(r1), len(r2))
+''' % (len(rows), len(r1), len(r2), len(r3))
 for r in rows:
     s += "| `%s` | %s | %s | %s |\n" % (r[0], r[1], r[2], "yes" if r[3] else "NO")
 
